@@ -870,14 +870,22 @@ func main() {
 		if nFrac < 1e9 && job%2 == 1 { // quick: half of the budget at the end of the second
 			lo = 1e9 - int64(job+1)*per
 		}
+		ntpSecs := uint64(sec/1e9+2208988800) << 32
 		for ns := lo; ns < lo+per; ns++ {
 			if !c.instant(sec + ns) {
+				return
+			}
+			// the other direction: the smallest and the largest NTP fraction that Decode maps to this
+			// nanosecond (Decode is monotonic, so these are the extremes of Encode(Decode(v)) - v)
+			fmin := (uint64(ns)<<32 + 999_999_999) / 1_000_000_000
+			fmax := (uint64(ns+1)<<32+999_999_999)/1_000_000_000 - 1
+			if !c.value(ntpSecs|fmin) || !c.value(ntpSecs|fmax) {
 				return
 			}
 		}
 	}, panicHandler("codec"))
 	if nFrac == 1e9 {
-		run.Extra("codec_exhaustive_subspace", "all 10^9 nanosecond fractions of one second (the NTP fraction depends only on the nanosecond within the second)")
+		run.Extra("codec_exhaustive_subspace", "all 10^9 nanosecond fractions of one second, and for each the smallest and largest NTP fraction decoding to it (the NTP fraction depends only on the nanosecond within the second)")
 	}
 	// sampled instants over the whole range and sampled NTP values
 	nD := run.Pick(5_000_000, 500_000_000)
